@@ -28,7 +28,7 @@ CHECKS = {
         note="intraprocedural; guards matched by dominance of an ordering comparison on the same value class (under-approximate once any comparison is seen)",
         ref="DESIGN.md section 3 C01"),
     "C09": dict(
-        technique="must-pass-through rules on MIR for the carry-over buffer and the consumed-byte contract, plus the shared container/EOF classification rules; must-pass-through of the tail move between a feed_bytes call and the next read in the library's own read loops",
+        technique="must-pass-through rules on MIR for the carry-over buffer and the consumed-byte contract, plus the shared container/EOF classification rules; must-pass-through of the tail move between a feed_bytes call and the next read in the library's own read loops; must-pass-through of the buffer-offset commit after every drain of the carry-over buffer",
         text="Claimed narrowly: the plumbing that makes a chunk boundary invisible (each a necessary condition): the public feed functions "
              "return the parser's consumed-byte count; the frame loader re-stores the unconsumed remainder on every successful exit after "
              "it consumed bytes; the box-header parser is prefix-closed; aux boxes are finalised at end of input; end-of-data is classified "
@@ -36,7 +36,7 @@ CHECKS = {
         note="shares R-CONSUMED/R-BOXHDR/R-AUXBOX with C10 and R-EOF-* with C11; intraprocedural",
         ref="DESIGN.md section 8.6"),
     "C10": dict(
-        technique="typestate transition-table extraction from MIR and comparison with the container-format reference; guard reconstruction; constant-propagating walk of the header parser's decision tree; must-pass-through (consumed counter; tail move after feed_bytes in the read loops)",
+        technique="typestate transition-table extraction from MIR and comparison with the container-format reference; guard reconstruction; constant-propagating walk of the header parser's decision tree; must-pass-through (consumed counter; tail move after feed_bytes in the read loops); registry of repair guards (reserved-prefix byte string, brob size facts)",
         text="Decides the rejection clause and the size arithmetic for all layouts and chunkings: the jxlc/jxlp transition table equals "
              "the reference (duplicate/out-of-order/late codestream boxes -> error), undersized jxlp/brob boxes and compressed reserved "
              "types are rejected before the unchecked subtractions, the header parser is prefix-closed for the 64-bit size marker, and the "
@@ -80,7 +80,7 @@ CHECKS = {
         note="trusts rustc's capture analysis and callee resolution; rayon itself is trusted",
         ref="DESIGN.md section 3 C07"),
     "C13": dict(
-        technique="field-access census + atomic-operation typing + closure-body shape + ownership (drop of handle temporaries) on MIR; dominance ordering of tracker charge before allocation; census of discarded out-of-memory results",
+        technique="field-access census + atomic-operation typing + closure-body shape + ownership (drop of handle temporaries) on MIR; dominance ordering of tracker charge before allocation; census of discarded out-of-memory results; store-before-fallible-call ordering on the remembered limit (commit after shrink_limit succeeds)",
         text="Decides the budget arithmetic for every interleaving: bytes_left is only changed by fetch_update(checked_sub) and "
              "fetch_add of exactly the amount recorded in the handle; handles cannot be forged, are not dropped as temporaries, are not "
              "leaked, and exhaustion is never unwrapped. Does not decide untracked allocations or Arc cycles.",
@@ -95,7 +95,7 @@ CHECKS = {
         note="19 of 30 tables were compared by hand with ISO/IEC 18181-1 (listed in tools/gen_bitspec.py), the others are snapshots marked reviewed=false",
         ref="DESIGN.md section 3 C14"),
     "C15": dict(
-        technique="symbolic affine evaluation of MIR (abstract interpretation over {x,y,w,h,1}) of the three orientation maps, coefficient comparison; control-dependence / must-pass-through for channel order; interval analysis of the operands of narrowing casts in the integer output conversions; call-graph reachability (oriented-dimension accessors unreachable from codestream-coordinate code)",
+        technique="symbolic affine evaluation of MIR (abstract interpretation over {x,y,w,h,1}) of the three orientation maps, coefficient comparison; control-dependence / must-pass-through for channel order; interval analysis of the operands of narrowing casts in the integer output conversions; call-graph reachability (oriented-dimension accessors unreachable from codestream-coordinate code); must-pass-through of the cursor advance in the resumable stream writer; control dependence of the integer fast path on the BitDepth discriminant",
         text="Decides the coordinate-map half for all sizes and coordinates: for each of the eight orientations the maps in "
              "FrameBuffer::from_grids, ImageStream::to_original_coord and ImageMetadata::apply_orientation (forward and inverse) equal the "
              "EXIF definition, are mutually inverse and agree on the dimension swap; stream channels are pushed colour, black (cmyk only), "
@@ -103,14 +103,14 @@ CHECKS = {
         note="affine forms with rational coefficients; an arm that is not straight-line affine arithmetic is reported as not evaluable (fail closed)",
         ref="DESIGN.md section 3 C15"),
     "C16": dict(
-        technique="dispatch-table extraction from the discriminant switch of three sibling dispatchers (resolved callees + const generic arguments) and comparison with the format's table",
+        technique="dispatch-table extraction from the discriminant switch of three sibling dispatchers (resolved callees + const generic arguments) and comparison with the format's table; literal secant vectors of the in-register DCT8 kernels compared with the formula, and a contradiction rule (forward and inverse cannot share one table provider)",
         text="Claimed narrowly: every one of the 27 transform types has a handler, and the generic, SSE2 and SSE4.1 dispatchers route each "
              "type to the corresponding kernel family with the same const generic argument (e.g. Dct8x4 -> dct4x8<true>, Afv2 -> afv<2>). "
              "Does not decide any numerical property of the kernels.",
         note="kernel families are recognised by name after stripping the architecture suffix",
         ref="DESIGN.md section 3 C16"),
     "C03": dict(
-        technique="comparison of rustc-evaluated format tables and enum code maps with references transcribed from the standard; sibling cross-check of the two channel-partition predicates on MIR; scope (construction-site / loop) rule for the RLE run state; who-may-reset-without-previous-channels rule tied to the table-refusal check; concrete evaluation (constant propagation) of the previous-channel depth expression; saturating-index rule for compiled lookup tables; registry of repair guards",
+        technique="comparison of rustc-evaluated format tables and enum code maps with references transcribed from the standard; sibling cross-check of the two channel-partition predicates on MIR; scope (construction-site / loop) rule for the RLE run state; who-may-reset-without-previous-channels rule tied to the table-refusal check; concrete evaluation (constant propagation) of the previous-channel depth expression; saturating-index rule for compiled lookup tables; registry of repair guards; data-dependence of the palette fast-path decision on the delta-entry count",
         text="Claimed narrowly: three structural necessary conditions of exact lossless decoding. The weighted-predictor reciprocal table "
              "and the delta palette have the specified values; the 14 predictor codes denote the specified predictors (enum discriminants "
              "and the TryFrom<u32> switch); the predicate that keeps a channel in the global section and the one that skips it when "
@@ -119,7 +119,7 @@ CHECKS = {
         note="everything arithmetic about prediction, context trees, fast paths and inverse transforms is undecided",
         ref="DESIGN.md section 8.14"),
     "C04": dict(
-        technique="comparison of rustc-evaluated constant tables with references transcribed from the standards; validation-check reconstruction from MIR against a reviewed table; constant-agreement rule on the LZ77 window; constant-propagating path rule (enum variant fixed) on the single-token shortcut; must-pass-through of Decoder::finalize for every decoder owner",
+        technique="comparison of rustc-evaluated constant tables with references transcribed from the standards; validation-check reconstruction from MIR against a reviewed table; constant-agreement rule on the LZ77 window; constant-propagating path rule (enum variant fixed) on the single-token shortcut; must-pass-through of Decoder::finalize for every decoder owner; must-pass-through of the bit-buffer refill on every path of Coder::read_symbol",
         text="Claimed narrowly: three structural necessary conditions. The tables the entropy decoder takes from the format (LZ77 special "
              "distances, code-length order) have the specified values; the acceptance checks the property names (ANS final state 0x130000, "
              "complete prefix codes, distribution sums, cluster map holes, Lehmer digits) exist as compare->error; the LZ77 window "
@@ -128,7 +128,7 @@ CHECKS = {
         note="the ANS mask / table-size agreement is decided under C02 (R-UNSAFE-b); alias-table construction, prefix lookup tables and hybrid-integer expansion are not decided",
         ref="DESIGN.md section 8.9"),
     "C19": dict(
-        technique="comparison of rustc-evaluated colour constants and recognition tables with references transcribed from the cited standards or derived by formula; writer/reader agreement of the cicp tag layout (offset, element index, codes) extracted from MIR; backward data-flow slice of the recovered chromaticities (no range-limiting operation); sibling agreement of the sign handling in the two scalar directions of each transfer curve",
+        technique="comparison of rustc-evaluated colour constants and recognition tables with references transcribed from the cited standards or derived by formula; writer/reader agreement of the cicp tag layout (offset, element index, codes) extracted from MIR; backward data-flow slice of the recovered chromaticities (no range-limiting operation); sibling agreement of the sign handling in the two scalar directions of each transfer curve; path independence of the TRC-presence store from the curve-recognition store in detect_profile_info",
         text="Claimed narrowly: the named colour constants. Chromaticities of the enumerated white points and primaries, the Bradford "
              "matrix and its inverse, the HLG and PQ constants equal the values of the cited standards, and the ICC parser's recognition "
              "tables map the same chromaticities to the same enum values the synthesiser writes. Does not decide anything numerical about "
@@ -136,7 +136,7 @@ CHECKS = {
         note="the rational approximations of the PQ / sRGB curves are snapshot-guarded only (stated in evidence)",
         ref="DESIGN.md section 8.9"),
     "C12": dict(
-        technique="exhaustive decision-table extraction of the buffer-width predicate by abstract evaluation of MIR; sibling-implementation cross-checks (resolved callees and operators of the I32 vs I16 arms and of the i32 vs i16 trait impls); no saturating i16 arithmetic in the sample-processing crates (callee census); operation-multiset agreement of the scalar i16 / i32 transform kernels",
+        technique="exhaustive decision-table extraction of the buffer-width predicate by abstract evaluation of MIR; sibling-implementation cross-checks (resolved callees and operators of the I32 vs I16 arms and of the i32 vs i16 trait impls); no saturating i16 arithmetic in the sample-processing crates (callee census); operation-multiset agreement of the scalar i16 / i32 transform kernels; operation ordering (shift at 32 bits before the narrowing cast) in the i16 token unpacker",
         text="Claimed narrowly: what selects the buffer width, and that both widths go through the same operations. narrow_modular equals "
              "`!force_wide && header flag` for all four input combinations and the builder setting reaches the render context; every match "
              "on ImageBuffer with separate 32-bit / 16-bit arms (15) and every i16/i32 pair of Sample/Sealed methods (12) use the same "
